@@ -205,7 +205,7 @@ fn c02_cmp_spec_full_full() {
     kani::cover!(got == std::cmp::Ordering::Less);
 }
 
-//@ id=C02 tier=quick cap=1500
+//@ id=C02 tier=quick cap=1500 mem=20
 //@ fn: <RibEntry as Ord>::cmp and helpers
 //@ bound: entry with all decision attributes vs. entry with NO attributes (defaults: LOCAL_PREF 100, ORIGIN incomplete, empty path, router-id tie-break); unwind 10
 //@ desc: defaults for absent attributes match the statement
@@ -217,7 +217,7 @@ fn c02_cmp_spec_full_none() {
     kani::cover!(got == std::cmp::Ordering::Less);
 }
 
-//@ id=C02 tier=thorough cap=1500
+//@ id=C02 tier=thorough cap=1800 mem=24
 //@ fn: <RibEntry as Ord>::cmp and helpers
 //@ bound: shape pairs (ORIGIN+AS_PATH+COMMUNITY only) x (all attributes); unwind 10
 //@ desc: mixed presence
@@ -228,7 +228,7 @@ fn c02_cmp_spec_partial_full() {
     kani::cover!(got == std::cmp::Ordering::Less);
 }
 
-//@ id=C02 tier=thorough cap=1500
+//@ id=C02 tier=thorough cap=1800 mem=24
 //@ fn: <RibEntry as Ord>::cmp and helpers
 //@ bound: shape pairs (ORIGIN+AS_PATH+COMMUNITY only) x (ORIGIN+AS_PATH+COMMUNITY only), and none x none; unwind 10
 //@ desc: mixed presence
